@@ -131,6 +131,14 @@ def check(report, tier, seed):
             out = bytes.fromhex(rend[0][7:]).decode("utf-8", "replace") if rend and rend[0] != "render -" else ""
             if "error:" not in out:
                 report.violation("input-rejected-silently", "rejected without any 'error:' diagnostic", rep)
+        if profile == "dev":
+            import rendercheck
+            tx = {"c%d" % i: t for i, t in enumerate(texts)}
+            order = list(tx)
+            rng.shuffle(order)
+            n_r, n_v = rendercheck.compare(report, tx, impl, "input", ids=order, limit=2500 if tier == "quick" else 60000)
+            res["renderings_compared_with_model"] = n_r
+            res["error_variants_rendered"] = n_v
     # a sample through the real binary: exit status, stderr, wall time
     cli = lib.build_cli("dev")
     sample = rng.sample(texts, 60 if tier == "quick" else 600) + ["\xff\xfe\x00 invalid utf8".encode("latin-1")]
